@@ -13,6 +13,8 @@ FX4 = fp.MPFixedContext(-5, fp.RM.RNE)
 MP5 = fp.MPFloatContext(5, fp.RM.RTO)
 FXF = fp.MPFixedContext(-30, fp.RM.RNE)     # a fixed-point grid finer than binary16/binary32 digits near 1
 MP40 = fp.MPFloatContext(40, fp.RM.RNE)
+MP12 = fp.MPFloatContext(12, fp.RM.RNE)      # one digit more than binary16
+MP25 = fp.MPFloatContext(25, fp.RM.RNE)      # one digit more than binary32
 FXM = fp.MPFixedContext(-20, fp.RM.RTZ)     # finer than binary16 digits near 1, coarser than binary32's
 K = 3
 HALF = 0.5
@@ -483,6 +485,17 @@ def ret_comp(xs: list[fp.Real]) -> list[list[fp.Real]]:
 
 
 
+
+@fp.fpy
+def circle(x: fp.Real) -> fp.Real:
+    # library constants under the caller's context (computed by the engine to the precision asked for)
+    return 2 * fp.const_pi() * x + fp.const_e()
+
+
+@fp.fpy
+def consts(x: fp.Real) -> tuple[fp.Real, fp.Real, fp.Real]:
+    return (fp.const_pi(), fp.const_log2e() * x, fp.const_sqrt2())
+
 # ---- derivations by user rewrite rules (expression rewrites keep the statement: no statement edit) ----
 
 @fp.pattern
@@ -526,6 +539,8 @@ def muladd16(a: fp.Real, b: fp.Real, c: fp.Real) -> tuple[fp.Real, fp.Real]:
 
 
 SIG = {
+    'circle': ['num'],
+    'consts': ['num'],
     'muladd': ['num', 'num', 'num'],
     'muladd16': ['num', 'num', 'num'],
     'ret_literal': ['num'],
@@ -590,7 +605,7 @@ AMBIENT = ['extremes', 'use_table', 'use_pass_list', 'pinned32', 'pinned_rtz16',
 PINNED = ['pinned32', 'pinned_rtz16', 'calls_pinned']
 
 # functions with operations outside any `with` of their own: what a stale or leaked ambient context would change
-BARE = ['muladd', 'helper_noctx', 'extremes', 'tenth', 'boosted', 'calls', 'early', 'nested', 'uses_closure']
+BARE = ['circle', 'consts', 'muladd', 'helper_noctx', 'extremes', 'tenth', 'boosted', 'calls', 'early', 'nested', 'uses_closure']
 # programs whose failure happens below a call they make (in a callee, in a primitive)
 FAIL_BELOW = ['calls_failing', 'via_picky']
 
@@ -601,7 +616,7 @@ RETURNS_LISTS = ['ret_literal', 'ret_nested_literal', 'ret_table', 'ret_callee',
 # everything that takes or returns containers
 BOUNDARY = RETURNS_LISTS + ['deep', 'mut_list', 'share_call', 'dot', 'sum_enum', 'use_pass_list', 'poly', 'trans']
 
-SPECIAL = ['muladd', 'muladd16', 'pinned32', 'narrow', 'extremes', 'tenth', 'use_table', 'uses_closure', 'deep', 'ret_param', 'via_prim', 'calls_failing',
+SPECIAL = ['circle', 'consts', 'muladd', 'muladd16', 'pinned32', 'narrow', 'extremes', 'tenth', 'use_table', 'uses_closure', 'deep', 'ret_param', 'via_prim', 'calls_failing',
            'calls', 'pinned_rtz16', 'narrow_neg', 'tenth16', 'use_pass_list', 'shadowing', 'ident_pair', 'ret_pair',
            'via_picky', 'asserting', 'cap_num', 'calls_pinned', 'narrow_all', 'tenth32', 'mut_list', 'nested_lists',
            'share_call', 'indexer', 'exact_or_fail', 'trans', 'directed', 'ident', 'slices',
